@@ -61,21 +61,48 @@ func TestVerifPoolRun(t *testing.T) {
 		t.Fatal(err)
 	}
 	defer ln.Close()
+	prng := rand.New(rand.NewSource(seed + 7))
+	var pmu sync.Mutex
 	go func() {
 		for {
 			c, err := ln.Accept()
 			if err != nil {
 				return
 			}
-			go func() {
-				buf := make([]byte, 1024)
-				for {
-					if _, err := c.Read(buf); err != nil {
-						c.Close()
-						return
+			// network events: a peer that reads, one that does not read at all (our writes block once the buffers
+			// are full), and both kinds may keep sending us frames
+			pmu.Lock()
+			reads, writes := prng.Intn(3) > 0, prng.Intn(2) == 0
+			pmu.Unlock()
+			if reads {
+				go func() {
+					buf := make([]byte, 1024)
+					for {
+						if _, err := c.Read(buf); err != nil {
+							c.Close()
+							return
+						}
 					}
-				}
-			}()
+				}()
+			}
+			if writes {
+				go func() {
+					fr := vwFrame(append(append([]byte{}, vwPrefix[:]...), encoder.Serialize(&vwMsg{A: 7, B: []byte{1}})...))
+					for {
+						if _, err := c.Write(fr); err != nil {
+							c.Close()
+							return
+						}
+						time.Sleep(50 * time.Microsecond)
+					}
+				}()
+			}
+			if !reads && !writes {
+				go func() {
+					time.Sleep(2 * time.Second)
+					c.Close()
+				}()
+			}
 		}
 	}()
 	peer := ln.Addr().String()
@@ -153,7 +180,11 @@ func TestVerifPoolRun(t *testing.T) {
 					}
 					switch crng.Intn(12) {
 					case 6:
-						note("send", p.SendMessage(peer, &vwMsg{A: 1, B: []byte{1, 2, 3}}))
+						if crng.Intn(2) == 0 {
+							note("send", p.SendMessage(peer, &vwMsg{A: 1, B: make([]byte, 200*1024)})) // fills the socket of a peer that does not read
+						} else {
+							note("send", p.SendMessage(peer, &vwMsg{A: 1, B: []byte{1, 2, 3}}))
+						}
 					case 7:
 						_, err := p.BroadcastMessage(&vwMsg{A: 2}, []string{peer, "127.0.0.1:1"})
 						note("broadcast", err)
